@@ -422,7 +422,7 @@ impl From<&WorterbuchError> for ErrorCode {
             WorterbuchError::NotImplemented => ErrorCode::NotImplemented,
             WorterbuchError::KeyIsLocked(_) => ErrorCode::KeyIsLocked,
             WorterbuchError::KeyIsNotLocked(_) => ErrorCode::KeyIsNotLocked,
-            WorterbuchError::FeatureDisabled(_) => ErrorCode::KeyIsNotLocked,
+            WorterbuchError::FeatureDisabled(_) => ErrorCode::FeatureDisabled,
             WorterbuchError::ClientIdCollision(_) => ErrorCode::ClientIDCollision,
             WorterbuchError::EmptyKey => ErrorCode::EmptyKey,
             WorterbuchError::Other(_, _) | WorterbuchError::ServerResponse(_) => ErrorCode::Other,
